@@ -43,11 +43,11 @@ def grammars_for(spec0):
     return _gcache[key]
 
 
-def evaluate(case, want_pops=False, sent_index=0):
-    """run the real parser on one sentence of the case and compute everything the oracles need"""
+def prepare(case, sent_index=0):
+    """everything the oracles need that does not require running the parser"""
     from depccg.cat import Category
     ev = Evaluated()
-    grammar, ev.memo = grammars_for(case['grammar'])
+    ev.grammar, ev.memo = grammars_for(case['grammar'])
     sent = case['sentences'][sent_index]
     ev.sent = sent
     ev.n = len(sent['words'])
@@ -60,30 +60,42 @@ def evaluate(case, want_pops=False, sent_index=0):
     ev.head_mode = case.get('head_mode')
     ev.pops = None
     ev.exception = None
-    try:
-        if want_pops:
-            with native.PopTrace() as tr:
-                results, docs, faults = native.run_parser(case, grammar, sentences=[sent])
-            ev.pops = tr.pops if tr.enabled else None
-        else:
-            results, docs, faults = native.run_parser(case, grammar, sentences=[sent])
-    except Exception as ex:  # the parser itself raised
-        ev.exception = ex
-        ev.results, ev.docs, ev.faults = None, None, []
-        return ev
-    ev.results = results
-    ev.docs = docs
-    ev.faults = faults
-    ev.trees = results[0] if len(results) == 1 else None
-    # beam
+    ev.results = ev.docs = ev.trees = None
+    ev.faults = []
+    ev.placeholder = False
     ev.must, ev.may = [], []
     for row in sent['tag']:
         mu, ma = oc.admitted([float(v) for v in row], cfg['pruning_size'], cfg['beta'], cfg['use_beta'])
         ev.must.append(mu)
         ev.may.append(ma)
     ev.beam_exact = all(mu == ma for mu, ma in zip(ev.must, ev.may))
+    return ev
+
+
+def execute(ev, case, want_pops=False):
+    """run the real parser on the prepared sentence"""
+    sent = ev.sent
+    try:
+        if want_pops:
+            with native.PopTrace() as tr:
+                results, docs, faults = native.run_parser(case, ev.grammar, sentences=[sent])
+            ev.pops = tr.pops if tr.enabled else None
+        else:
+            results, docs, faults = native.run_parser(case, ev.grammar, sentences=[sent])
+    except Exception as ex:  # the parser itself raised
+        ev.exception = ex
+        return ev
+    ev.results = results
+    ev.docs = docs
+    ev.faults = faults
+    ev.trees = results[0] if len(results) == 1 else None
     ev.placeholder = ev.trees is not None and native.is_placeholder(ev.trees)
     return ev
+
+
+def evaluate(case, want_pops=False, sent_index=0):
+    """run the real parser on one sentence of the case and compute everything the oracles need"""
+    return execute(prepare(case, sent_index), case, want_pops)
 
 
 def leaf_scores(ev, sets):
